@@ -288,7 +288,7 @@ def recipes(tier='quick'):
             'symmetric_adjoint', 'order0_adjoint', 'order1_adjoint', 'order2_adjoint']
     methods = ['forward', 'backward', 'central']
     for bd in (False, True):
-        for shape in ([5], [3, 4]) if tier == 'quick' else ([5], [4], [3, 4], [2, 3]):
+        for shape in ([5], [3, 4]) if tier == 'quick' else ([5], [4], [3, 4], [4, 3], [3, 3]):
             nd = len(shape)
             sp = odl.uniform_discr([0] * nd, [2] * nd, shape, nodes_on_bdry=bd)
             for meth in methods:
